@@ -49,6 +49,7 @@ func RCodec(c *core.Ctx) {
 
 	// ---- reader: switch on the escape letter
 	readerRet := map[rune]int64{}   // letter -> returned rune (constant returns)
+	readerOther := map[rune]string{} // letter -> some other successful result of the same arm
 	readerHex := map[rune]int64{}   // letter -> scanHex width
 	readerLabels := map[rune]bool{} // all case labels
 	var rdSwitch *ast.SwitchStmt
@@ -79,6 +80,15 @@ func RCodec(c *core.Ctx) {
 							if k, ok := core.ConstInt(info, y.Results[0]); ok && isNilIdent(info, y.Results[1]) {
 								if _, dup := readerRet[rune(v)]; !dup {
 									readerRet[rune(v)] = k
+								}
+							} else if isNilIdent(info, y.Results[1]) {
+								// a successful return of something that is not a constant (the letter itself
+								// under some option, a computed value): the arm does not always give the rune back
+								readerOther[rune(v)] = types.ExprString(y.Results[0])
+							}
+							if k, ok := core.ConstInt(info, y.Results[0]); ok && isNilIdent(info, y.Results[1]) {
+								if first, dup := readerRet[rune(v)]; dup && first != k {
+									readerOther[rune(v)] = fmt.Sprintf("%q", rune(k))
 								}
 							}
 						}
@@ -141,7 +151,14 @@ func RCodec(c *core.Ctx) {
 				back = v
 				okArm = has && v == r
 			}
-			c.Check(okArm, fmt.Sprintf("escape / named escape for %q is read back as the same rune", rune(r)), cc.Pos(), "writer emits %q; reader returns %q for that letter", written, rune(back))
+			also := ""
+			if okArm {
+				if o, has := readerOther[rune(written[1])]; has {
+					okArm = false
+					also = "; on another path of the same arm (an option test) it returns " + o
+				}
+			}
+			c.Check(okArm, fmt.Sprintf("escape / named escape for %q is read back as the same rune", rune(r)), cc.Pos(), "writer emits %q; reader returns %q for that letter%s", written, rune(back), also)
 		}
 	}
 	if named == 0 {
